@@ -272,6 +272,29 @@ def main():
         if bad:
             res.fail(f"merge bookkeeping: {name}", bad + f" (coincident nodes merged: {shared})", ident)
 
+    # ---------------- the merge tolerance is an absolute distance (documented), whatever the size of the meshes ----------------
+    for Lsc, gap, expect_merge in ((100.0, 2e-11, False), (1e-3, 2e-13, True), (1.0, 2e-11, False), (1.0, 2e-13, True)):
+        ma = M.mesh_2d("TRI3", polygon=[(0, 0), (1, 0), (1, 1), (0, 1)], h=0.5)
+        mb = M.mesh_2d("TRI3", polygon=[(1, 0), (2, 0), (2, 1), (1, 1)], h=0.5)
+        ma.coord = ma.coord * Lsc
+        Xb = mb.coord * Lsc
+        Xb[:, 0] += gap                      # the second mesh starts `gap` away from the edge x = L of the first
+        mb.coord = Xb
+        shared = int(np.isclose(ma.coord[:, 0], Lsc).sum())
+        ident = dict(merge="two meshes side by side", scale=Lsc, gap=gap, mergePointsTol=1e-12)
+        res.case(("merge-tolerance", Lsc, gap))
+        res.count("merge-tolerance")
+        try:
+            mg, mp_ = Mesh.Merge([ma, mb], return_mapping=True)
+        except Exception as ex:  # noqa: BLE001
+            res.fail("Mesh.Merge raises", f"{type(ex).__name__}: {str(ex)[:150]}", ident)
+            continue
+        want_Nn = ma.Nn + mb.Nn - (shared if expect_merge else 0)
+        moved = max(float(np.abs(mg.coord[np.asarray(mp)] - m.coord).max()) for m, mp in zip((ma, mb), mp_))
+        if mg.Nn != want_Nn or moved > 1e-12:
+            res.fail(f"merge tolerance is not the documented absolute distance scale={Lsc} gap={gap}",
+                     f"meshes of size {Lsc} whose interface nodes are {gap} apart (tolerance 1e-12): merged mesh has {mg.Nn} nodes, expected {want_Nn}; the mapping moves a node by {moved:.2e}", ident)
+
     answers = driver.ask(lines)
     if answers is None:
         res.disagree("driver", "model driver does not run: " + getattr(driver, "error", "")[:400])
@@ -296,4 +319,6 @@ def main():
 
 
 if __name__ == "__main__":
-    main()
+    from tools.harness._common import run
+
+    run(main)
